@@ -264,8 +264,8 @@ func runC06(c *Ctx) {
 			if must, _ := mustPassBefore(cl.Blocks[0], w.deepHit(good), func(*ssa.BasicBlock) bool { return false }); must {
 				ok = true
 			}
-			if !ok && why == "" {
-				why = "expiry closure does not call DeleteAllocation unconditionally"
+			if !ok && strings.HasPrefix(why, "no store of") {
+				why = "the expiry closure stored into lifetimeTimer does not call DeleteAllocation(owner's fiveTuple) on every path"
 			}
 		})
 		if ok {
